@@ -1,6 +1,6 @@
 (* C02 property theorems: statements only, each closed by [exact]. *)
 From Boltons Require Import Lib.Prelude Lib.C02_Syntax Spec.C02_Spec Model.C02_Model
-  Proofs.C02_Lists Proofs.C02_Inv Proofs.C02_Heap Proofs.C02_Thms Proofs.C02_Counters.
+  Proofs.C02_Lists Proofs.C02_Inv Proofs.C02_Heap Proofs.C02_Thms Proofs.C02_Counters Proofs.C02_Recency.
 Close Scope N_scope.
 Open Scope nat_scope.
 
@@ -146,3 +146,45 @@ Example C02_counters_inhabited :
   count_lookups c (fst (init_cache c [])) ops = (2%N, 4%N, 3%N)
   /\ (let m := run1 c (fst (init_cache c [])) ops in (hit m, miss m, soft m)) = (2%N, 4%N, 3%N).
 Proof. vm_compute. split; reflexivity. Qed.
+
+(* recency, declaratively: after any history the linked list (oldest first) is
+   exactly the list of present keys in the order of their latest use, where the
+   uses of a history are read off from outside (use_log: every assignment incl.
+   update / |= / setdefault / on_miss insertions, and -- LRU only -- every
+   lookup that found its key) *)
+Theorem C02_recency : forall c init ops,
+  1 <= c_max c ->
+  let m0 := fst (init_cache c init) in
+  let m := run1 c m0 ops in
+  keys (ring m) = filter (d_mem (store m)) (keep_last (map fst init ++ use_log c m0 ops)).
+Proof. exact recency. Qed.
+Print Assumptions C02_recency.
+
+(* eviction strictly by recency: assigning a new key to a full cache evicts e,
+   the head of the list, and nothing else; and e is the present key whose
+   latest use is oldest: in the order of latest use every key before e is
+   absent *)
+Theorem C02_victim_least_recently_used : forall c init ops k v e ve rest,
+  1 <= c_max c ->
+  let m0 := fst (init_cache c init) in
+  let m := run1 c m0 ops in
+  let order := keep_last (map fst init ++ use_log c m0 ops) in
+  d_mem (store m) k = false -> length (store m) = c_max c -> ring m = (e, ve) :: rest ->
+  (exists m', step1 c m (SetItem k v) = (m', Ok ONone)
+     /\ ring m' = rest ++ [(k, v)] /\ d_mem (store m') e = false
+     /\ (forall k', k' <> e -> d_get (store m') k' = if Nat.eqb k' k then Some v else d_get (store m) k'))
+  /\ exists older newer, order = older ++ e :: newer
+       /\ forallb (fun x => negb (d_mem (store m) x)) older = true
+       /\ d_mem (store m) e = true
+       /\ filter (d_mem (store m)) newer = keys rest.
+Proof. exact victim_least_recently_used. Qed.
+Print Assumptions C02_victim_least_recently_used.
+
+Example C02_recency_inhabited :
+  let c := mkCfg LRU 3 None in
+  let ops := [SetItem 1 10; SetItem 2 20; SetItem 3 30; GetItem 1; Get 2 0; SetItem 4 40; DelItem 1; SetDefault 5 50] in
+  let m0 := fst (init_cache c [(7, 70)]) in
+  use_log c m0 ops = [1; 2; 3; 1; 2; 4; 5]
+  /\ keep_last (7 :: use_log c m0 ops) = [7; 3; 1; 2; 4; 5]
+  /\ keys (ring (run1 c m0 ops)) = [2; 4; 5].
+Proof. vm_compute. repeat split. Qed.
